@@ -78,3 +78,12 @@ Qed.
 
 Lemma unravel_inj sh i j : i < prod sh -> j < prod sh -> unravel sh i = unravel sh j -> i = j.
 Proof. intros Hi Hj E. rewrite <- (ravel_unravel sh i Hi), <- (ravel_unravel sh j Hj), E. reflexivity. Qed.
+
+(* all_indices lists exactly the in-range positions *)
+Lemma all_indices_iff_in_bounds sh idx : In idx (all_indices sh) <-> in_bounds sh idx = true.
+Proof.
+  rewrite <- unravel_enumerates. split.
+  - intros H. apply in_map_iff in H as [n [<- Hn]]. apply in_seq in Hn. apply unravel_in_bounds. lia.
+  - intros H. apply in_map_iff. exists (ravel sh idx). split; [apply unravel_ravel; exact H|].
+    apply in_seq. pose proof (ravel_lt sh idx H). lia.
+Qed.
